@@ -102,6 +102,7 @@ import itertools
 import math
 import operator
 import random
+import time
 
 from vf.core.ctx import CaseTimeout as G_TIMEOUT, exc_label
 from vf.gen import bags as G
@@ -254,6 +255,25 @@ def union_all(ps): return frozenset().union(*list(ps))
 def two_smallest(p): return sorted(p)[:2]
 def two_smallest_agg(ps): return sorted(itertools.chain.from_iterable(ps))[:2]
 
+def tri_kw(x, c, y, z=0): return (x, c, y, z)
+def append_binop(acc, x): return acc + [x]
+def second_of_two(a, b): return b
+def odd_none_half(x): return None if x % 2 else (0.5 if x % 4 == 0 else 2)
+
+
+def yield_ident(x):
+    """identity that hands the GIL over: lazily evaluated in front of an operation it makes the per-partition tasks
+    of different threads interleave element by element"""
+    time.sleep(0.0001)
+    return x
+
+
+def mp_zip(p, q): return [(x, y) for x, y in zip(p, q)]
+def mp_zip_kw(p, q=None, c=0, n=None): return [(x, y, c, n) for x, y in zip(p, q)]
+def mp_tag(p, c): return [(x, c) for x in p]
+def mp_tag_kw(p, c=0): return [(x, c) for x in p]
+
+
 def mp_elem(f, gen=False):
     def apply_part(p):
         if gen:
@@ -280,14 +300,16 @@ PREDS = {
     "I": [odd, pos, lt3], "S": [has_a, longish], "P": [p_lt, p_odd], "T": [t_pos], "D": [d_odd, d_opt], "L": [l_nonempty],
 }
 KEYS = {  # hashable grouping keys
-    "I": [mod3, ident, is_even, pairkey, to_str], "S": [s_len, ident, s_head], "P": [p_first, ident, p_par],
+    "I": [mod3, ident, is_even, pairkey, to_str, odd_none_half], "S": [s_len, ident, s_head], "P": [p_first, ident, p_par],
     "T": [t0, t_key2, ident], "D": [d_k, d_name, d_kn], "L": [l_sum],
 }
 NONCALL_KEYS = {"P": [0, 1], "T": [0, 1], "D": ["k", "name"]}
 HASHABLE = ("I", "S", "P", "T")
 COMPARABLE = ("I", "S", "P", "T")
-TOPK_KEYS = {"I": [None, neg, mod3], "S": [None, s_len], "P": [None, p_second], "T": [None, t_num], "D": [d_v, d_k]}
-SPLITS = (None, None, 2, 2, 3, 4)
+# besides key functions: a non-callable key (an index, also the falsy index 0) and a key function of several arguments
+# (applied to the unpacked element; Bag.topk wraps it)
+TOPK_KEYS = {"I": [None, neg, mod3], "S": [None, s_len], "P": [None, p_second, 1, 0, second_of_two], "T": [None, t_num, 1, 2], "D": [d_v, d_k, "v"]}
+SPLITS = (None, None, 2, 2, 3, 4, False, 16)     # False: "one level, whatever the partition count"
 
 
 class St:
@@ -350,7 +372,55 @@ def _ref(thunk):
 # ---------------------------------------------------------------------------
 # planners: (rng, st) -> Step   (raise NotApplicable when the op does not fit the state)
 
+def _delayed_const(c):
+    import dask
+
+    return dask.delayed(G._ident)(c)
+
+
+def _plan_map_generic_args(rng, st):
+    """kind-agnostic variants of the extra-argument classes of Bag.map (Bag / Item / Delayed / object, positional and keyword)"""
+    r = rng.random()
+    c = rng.randint(-2, 5)
+    if r < 0.15:
+        return Step("map", "map(mul_kw,y=delayed(%d))" % c, lambda b, s: b.map(mul_kw, y=_delayed_const(c)),
+                    lambda s: _elementwise(s, lambda x: (x, c), "X"), ["delayed-kwarg"])
+    if r < 0.30:
+        return Step("map", "map(swap2,delayed(%d))" % c, lambda b, s: b.map(swap2, _delayed_const(c)),
+                    lambda s: _elementwise(s, lambda x: (c, x), "X"), ["delayed-arg"])
+    if r < 0.45:
+        return Step("map", "map(swap2,b)", lambda b, s: b.map(swap2, b), lambda s: _elementwise(s, lambda x: (x, x), "X"), ["same-bag-arg"])
+    if r < 0.60:
+        return Step("map", "map(mul_kw,y=b)", lambda b, s: b.map(mul_kw, y=b), lambda s: _elementwise(s, lambda x: (x, x), "X"), ["same-bag-kwarg"])
+    if r < 0.80 and st.parts is not None:
+        base = rng.randint(0, 50)
+
+        def dask_fn(b, s):
+            lens = [len(p) for p in s.parts]
+            other, _ = G.build_bag([base + i for i in range(sum(lens))], {"style": "delayed", "lens": lens, "how": "call"})
+            return b.map(swap2, other)
+
+        def ref(s):
+            out, i = [], 0
+            for p in s.parts:
+                out.append([(base + i + j, x) for j, x in enumerate(p)])
+                i += len(p)
+            return St("X", out, None, s.ordered)
+        return Step("map", "map(swap2,other-same-lengths)", dask_fn, ref, ["independent-bag-arg"])
+
+    def ref3(s):
+        n = len(s.seq)
+        return _elementwise(s, lambda x: (x, c, x, n), "X")
+    return Step("map", "map(tri_kw,%d,b.map(ident),z=b.count())" % c, lambda b, s: b.map(tri_kw, c, b.map(ident), z=b.count()),
+                ref3, ["mixed-args", "bag-arg", "item-kwarg"])
+
+
 def plan_map(rng, st):
+    r0 = rng.random()
+    if r0 < 0.04:
+        return Step("map", "map(yield_ident)", lambda b, s: b.map(yield_ident), lambda s: _elementwise(s, ident, s.kind, s.sub), ["gil-yield"])
+    if r0 < 0.22:
+        return _plan_map_generic_args(rng, st)
     if st.kind not in MAPS:
         raise NotApplicable
     r = rng.random()
@@ -378,14 +448,18 @@ def plan_map(rng, st):
 def plan_starmap(rng, st):
     if st.kind == "P":
         r = rng.random()
-        if r < 0.4:
+        if r < 0.35:
             return Step("starmap", "starmap(add2)", lambda b, s: b.starmap(add2), lambda s: _elementwise(s, lambda x: x[0] + x[1], "I"))
-        if r < 0.6:
+        if r < 0.5:
             return Step("starmap", "starmap(swap2)", lambda b, s: b.starmap(swap2), lambda s: _elementwise(s, lambda x: (x[1], x[0]), "P"))
-        if r < 0.8:
+        if r < 0.65:
             z = rng.randint(-1, 4)
             return Step("starmap", "starmap(add2z,z=%d)" % z, lambda b, s: b.starmap(add2z, z=z),
                         lambda s: _elementwise(s, lambda x: x[0] + x[1] + z, "I"), ["const-kwarg"])
+        if r < 0.8:
+            z = rng.randint(-1, 4)
+            return Step("starmap", "starmap(add2z,z=delayed(%d))" % z, lambda b, s: b.starmap(add2z, z=_delayed_const(z)),
+                        lambda s: _elementwise(s, lambda x: x[0] + x[1] + z, "I"), ["delayed-kwarg"])
 
         def ref(s):
             n = len(s.seq)
@@ -417,7 +491,41 @@ def plan_remove(rng, st):
     return Step("remove", "remove(%s)" % _fn(p), lambda b, s: b.remove(p), lambda s: _filterwise(s, lambda x: not p(x)))
 
 
+def _plan_mp_args(rng, st):
+    """argument classes of Bag.map_partitions: Bag / Item / Delayed, positional and keyword (a Bag keyword switches
+    map_partitions from blockwise to hand-built tasks)"""
+    r = rng.random()
+    c = rng.randint(-2, 5)
+    if r < 0.2:
+        return Step("map_partitions", "map_partitions(mp_zip,b.map(ident))", lambda b, s: b.map_partitions(mp_zip, b.map(ident)),
+                    lambda s: _elementwise(s, lambda x: (x, x), "X"), ["bag-arg"])
+    if r < 0.45:
+        def ref(s):
+            n = len(s.seq)
+            return _elementwise(s, lambda x: (x, x, c, n), "X")
+        return Step("map_partitions", "map_partitions(mp_zip_kw,q=b.map(ident),c=%d,n=b.count())" % c,
+                    lambda b, s: b.map_partitions(mp_zip_kw, q=b.map(ident), c=c, n=b.count()), ref, ["bag-kwarg", "item-kwarg", "const-kwarg"])
+    if r < 0.6:
+        if rng.random() < 0.5:
+            return Step("map_partitions", "map_partitions(mp_zip,b)", lambda b, s: b.map_partitions(mp_zip, b),
+                        lambda s: _elementwise(s, lambda x: (x, x), "X"), ["same-bag-arg"])
+        return Step("map_partitions", "map_partitions(mp_zip_kw,q=b)", lambda b, s: b.map_partitions(mp_zip_kw, q=b),
+                    lambda s: _elementwise(s, lambda x: (x, x, 0, None), "X"), ["same-bag-kwarg"])
+    if r < 0.75:
+        def refn(s):
+            n = len(s.seq)
+            return _elementwise(s, lambda x: (x, n), "X")
+        return Step("map_partitions", "map_partitions(mp_tag,b.count())", lambda b, s: b.map_partitions(mp_tag, b.count()), refn, ["item-arg"])
+    if r < 0.88:
+        return Step("map_partitions", "map_partitions(mp_tag,delayed(%d))" % c, lambda b, s: b.map_partitions(mp_tag, _delayed_const(c)),
+                    lambda s: _elementwise(s, lambda x: (x, c), "X"), ["delayed-arg"])
+    return Step("map_partitions", "map_partitions(mp_tag_kw,c=delayed(%d))" % c, lambda b, s: b.map_partitions(mp_tag_kw, c=_delayed_const(c)),
+                lambda s: _elementwise(s, lambda x: (x, c), "X"), ["delayed-kwarg"])
+
+
 def plan_map_partitions(rng, st):
+    if rng.random() < 0.3:
+        return _plan_mp_args(rng, st)
     r = rng.random()
     if st.kind in MAPS and r < 0.45:
         f, out = rng.choice(MAPS[st.kind])
@@ -449,7 +557,29 @@ def plan_map_partitions(rng, st):
                 lambda s: St("I", [[len(p)] for p in s.parts]), ["per-partition"])
 
 
+def _get_default(x, i, default):
+    try:
+        return x[i]
+    except (KeyError, IndexError):
+        return default
+
+
 def plan_pluck(rng, st):
+    if st.kind in ("P", "T", "D") and rng.random() < 0.25:
+        # key as a list ("pluck" of several fields gives tuples), without and with default=
+        if st.kind == "D":
+            ks = rng.choice((["k", "v"], ["name"], ["v", "k", "name"]))
+            missing = "opt"
+        else:
+            ks = rng.choice(([1, 0], [0], [1, 1, 0])) if st.kind == "P" else rng.choice(([2, 0], [1], [0, 1, 2]))
+            missing = 5
+        if rng.random() < 0.5:
+            return Step("pluck", "pluck(%r)" % (ks,), lambda b, s: b.pluck(list(ks)),
+                        lambda s: _elementwise(s, lambda x: tuple(x[i] for i in ks), "X"), ["key=list"])
+        ks2 = ks + [missing]
+        dflt = rng.choice((None, 0, -1))
+        return Step("pluck", "pluck(%r,default=%r)" % (ks2, dflt), lambda b, s: b.pluck(list(ks2), dflt),
+                    lambda s: _elementwise(s, lambda x: tuple(_get_default(x, i, dflt) for i in ks2), "X"), ["key=list", "default"])
     if st.kind == "P" or st.kind == "KV":
         i = rng.choice((0, 1))
         if st.kind == "KV":
@@ -464,8 +594,10 @@ def plan_pluck(rng, st):
         return Step("pluck", "pluck(%d)" % i, lambda b, s: b.pluck(i), lambda s: _elementwise(s, lambda x: x[i], "S" if i == 0 else "I"))
     if st.kind == "D":
         if rng.random() < 0.35:
-            return Step("pluck", "pluck('opt',default=-1)", lambda b, s: b.pluck("opt", -1),
-                        lambda s: _elementwise(s, lambda x: x.get("opt", -1), "I"), ["default"])
+            dflt = rng.choice((-1, -1, 0, None))      # falsy defaults are values too
+            return Step("pluck", "pluck('opt',default=%r)" % (dflt,), lambda b, s: b.pluck("opt", dflt),
+                        lambda s: _elementwise(s, lambda x: x.get("opt", dflt), "I" if dflt is not None else "X"),
+                        ["default"] + (["default=falsy"] if not dflt else []))
         k = rng.choice(("k", "v", "name"))
         return Step("pluck", "pluck(%r)" % k, lambda b, s: b.pluck(k), lambda s: _elementwise(s, lambda x: x[k], "S" if k == "name" else "I"))
     raise NotApplicable
@@ -483,6 +615,33 @@ def plan_flatten(rng, st):
     return Step("flatten", "flatten()", lambda b, s: b.flatten(), ref)
 
 
+def plan_unzip(rng, st):
+    """``b.unzip(n)``: n bags of the components, computed together (documented as n plucks)"""
+    import dask
+
+    n = {"P": 2, "T": 3}.get(st.kind)
+    if n is None or not st.ordered:
+        raise NotApplicable
+    m = rng.choice((n, n, 1)) if n > 1 else n
+    return Step("unzip", "unzip(%d)" % m, lambda b, s: [list(v) for v in dask.compute(*b.unzip(m))],
+                lambda s: Final([[x[i] for x in s.seq] for i in range(m)], "eq"), [], terminal=True)
+
+
+def plan_persist(rng, st):
+    """a pre-step that leaves state: the partitions are computed once and kept"""
+    return Step("persist", "persist()", lambda b, s: b.persist(), lambda s: St(s.kind, s.parts, None if s.parts is not None else list(s.seq), s.ordered, s.sub))
+
+
+def plan_to_delayed(rng, st):
+    """round trip through ``to_delayed`` / ``from_delayed`` (one Delayed per partition)"""
+    import dask.bag as db
+
+    og = rng.random() < 0.6
+    return Step("to_delayed", "from_delayed(to_delayed(optimize_graph=%r))" % og, lambda b, s: db.from_delayed(b.to_delayed(optimize_graph=og)),
+                lambda s: St(s.kind, s.parts, None if s.parts is not None else list(s.seq), s.ordered, s.sub),
+                [] if og else ["optimize_graph=False"])
+
+
 def plan_distinct(rng, st):
     if st.kind in HASHABLE and rng.random() < 0.5:
         def ref(s):
@@ -492,7 +651,7 @@ def plan_distinct(rng, st):
                     seen.add(x)
                     out.append(x)
             return St(s.kind, None, out, False, s.sub)
-        return Step("distinct", "distinct()", lambda b, s: b.distinct(), ref, ["no-key"])
+        return Step("distinct", "distinct()", lambda b, s: b.distinct(), ref, ["no-key"], dyn=_se_dyn(None))
     # with key: terminal (the representative is not specified)
     if st.kind == "D" and rng.random() < 0.4:      # docstring: "key: {callable,str}"
         k = rng.choice(NONCALL_KEYS[st.kind])
@@ -506,7 +665,7 @@ def plan_distinct(rng, st):
     else:
         raise NotApplicable
     return Step("distinct", desc, lambda b, s: b.distinct(key=k),
-                lambda s: Final(None, "distinct-key", (kf, list(s.seq))), feats, terminal=True)
+                lambda s: Final(None, "distinct-key", (kf, list(s.seq))), feats, terminal=True, dyn=_se_dyn(None))
 
 
 def plan_frequencies(rng, st):
@@ -528,8 +687,10 @@ def _freq(seq):
 
 
 def _se_dyn(se):
+    if se is False:
+        return lambda n: ["split_every=False"]
     eff = 8 if se is None else se
-    return lambda n: ["multi-level"] if n > eff else []
+    return lambda n: (["multi-level"] if n > eff else []) + (["three-levels"] if n > eff * eff else []) + (["split_every>npartitions"] if se and se > n else [])
 
 
 def plan_topk(rng, st):
@@ -538,7 +699,15 @@ def plan_topk(rng, st):
     key = rng.choice(TOPK_KEYS[st.kind])
     k = rng.choice((0, 1, 1, 2, 3, 5, len(st.seq), len(st.seq) + 2))
     se = rng.choice(SPLITS)
-    kf = key or ident
+    kfeat = "key"
+    if key is None:
+        kf = ident
+    elif key is second_of_two:
+        kf, kfeat = p_second, "key=multi-arg"
+    elif not callable(key):
+        kf, kfeat = operator.itemgetter(key), "key=non-callable"
+    else:
+        kf = key
 
     def ref(s):
         ks = _ref(lambda: sorted((kf(x) for x in s.seq), reverse=True)[:k])
@@ -547,7 +716,7 @@ def plan_topk(rng, st):
         return Step("topk", "topk(%d,split_every=%r)" % (k, se), lambda b, s: b.topk(k, split_every=se), ref,
                     (["k==0"] if k == 0 else []), terminal=True, dyn=_se_dyn(se))
     return Step("topk", "topk(%d,key=%s,split_every=%r)" % (k, _fn(key), se), lambda b, s: b.topk(k, key=key, split_every=se), ref,
-                ["key"] + (["k==0"] if k == 0 else []), terminal=True, dyn=_se_dyn(se))
+                [kfeat] + (["k==0"] if k == 0 else []), terminal=True, dyn=_se_dyn(se))
 
 
 # (name, binop, combine|None, initial|NO, commutative, kinds)
@@ -571,8 +740,23 @@ def plan_fold(rng, st):
     cands = [f for f in FOLDS if st.kind in f[5] and (f[4] or st.ordered)]
     if not cands:
         raise NotApplicable
-    name, binop, combine, initial, _, _ = rng.choice(cands)
     se = rng.choice(SPLITS)
+    if rng.random() < 0.15:
+        # out_type=Bag: the folded value is itself the (single) partition of the resulting bag
+        from dask.bag import Bag
+
+        kwb = {"out_type": Bag}
+        if se is not None:
+            kwb["split_every"] = se
+        if st.ordered and rng.random() < 0.6:
+            return Step("fold", "fold(append,add,initial=[],split_every=%r,out_type=Bag)" % se,
+                        lambda b, s: b.fold(append_binop, operator.add, initial=[], **kwb), lambda s: Final(list(s.seq), "list"),
+                        ["initial", "out_type=Bag"], terminal=True, dyn=_se_dyn(se))
+        if st.kind in HASHABLE:
+            return Step("fold", "fold(set,union,initial=frozenset(),split_every=%r,out_type=Bag)" % se,
+                        lambda b, s: b.fold(add_to_set, frozenset.union, initial=frozenset(), **kwb),
+                        lambda s: Final(list(set(s.seq)), "mset"), ["initial", "out_type=Bag"], terminal=True, dyn=_se_dyn(se))
+    name, binop, combine, initial, _, _ = rng.choice(cands)
     kw = {}
     if combine is not None:
         kw["combine"] = combine
@@ -673,11 +857,17 @@ def plan_groupby(rng, st):
     shuffle = rng.choice(("tasks", "tasks", "disk", "disk", None))
     kw = {}
     feats = []
+    cfg = None
     if shuffle is not None:
         kw["shuffle"] = shuffle
         feats.append("shuffle=" + shuffle)
     else:
-        feats.append("shuffle=default")
+        # no shuffle= argument: the method comes from the configuration ("dataframe.shuffle.method"; "p2p" is
+        # documented in the code as "not implemented for bags" and replaced by "tasks"), "disk" without it
+        cfg = rng.choice((None, "disk", "tasks", "p2p"))
+        feats.append("shuffle=default" if cfg is None else "shuffle=config:" + cfg)
+    if g is odd_none_half:
+        feats.append("key=None/float")
     if shuffle != "tasks":
         npo = rng.choice((None, None, 1, 2, 3, 7))
         if npo is not None:
@@ -690,7 +880,7 @@ def plan_groupby(rng, st):
             kw["blocksize"] = rng.choice((2, 7, 1000))
             feats.append("blocksize")
     dyn = None
-    if shuffle == "tasks":
+    if shuffle == "tasks" or cfg in ("tasks", "p2p"):
         mb = rng.choice((None, 2, 2, 3, 32))
         if mb is not None:
             kw["max_branch"] = mb
@@ -711,11 +901,16 @@ def plan_groupby(rng, st):
     def dask_fn(b, s):
         import dask
 
+        conf = {}
         if tmpfs:
-            with dask.config.set(temporary_directory=_TMPFS):
+            conf["temporary_directory"] = _TMPFS
+        if cfg is not None:
+            conf["dataframe.shuffle.method"] = cfg
+        if conf:
+            with dask.config.set(conf):
                 return b.groupby(g, **kw)
         return b.groupby(g, **kw)
-    return Step("groupby", "groupby(%s,%s)" % (_fn(g), ",".join("%s=%r" % kv for kv in sorted(kw.items()))),
+    return Step("groupby", "groupby(%s,%s%s)" % (_fn(g), ",".join("%s=%r" % kv for kv in sorted(kw.items())), (",config=" + cfg) if cfg else ""),
                 dask_fn, ref, feats, dyn=dyn)
 
 
@@ -750,7 +945,7 @@ def plan_join(rng, st):
         other = [(k, i) for i, k in enumerate(keys[: rng.randint(0, 7)])]
         on_other = p_first
         ko = p_first
-    form = rng.choice(("list", "tuple", "tuple", "delayed", "bag1", "bag1", "bagN" if rng.random() < 0.15 else "list"))
+    form = rng.choice(("list", "tuple", "tuple", "delayed", "delayed-call", "bag1", "bag1", "bag1-lazy", "bagN" if rng.random() < 0.15 else "list"))
 
     def dask_fn(b, s):
         if form == "list":
@@ -759,8 +954,12 @@ def plan_join(rng, st):
             o = tuple(other)
         elif form == "delayed":
             o = dask.delayed(tuple(other), traverse=False)
+        elif form == "delayed-call":
+            o = dask.delayed(tuple)(list(other))
         elif form == "bag1":
             o = db.from_sequence(list(other), npartitions=1)
+        elif form == "bag1-lazy":      # the single partition of other is a lazily evaluated chain read by every partition of b
+            o = db.from_sequence(list(other), npartitions=1).map(ident).filter(always)
         else:
             o = db.from_sequence(list(other) + list(other), npartitions=3)
             if o.npartitions == 1:
@@ -829,18 +1028,25 @@ def plan_take(rng, st):
         if npo > st.nparts:
             npo = st.nparts
     lazy = rng.random() < 0.3
+    warn = rng.random() < 0.35      # warn=True (the default): "a warning will be raised and any found rows returned"
+
+    def avail(s):
+        return list(s.seq) if npo == -1 else list(itertools.chain.from_iterable(s.parts[:npo]))
 
     def ref(s):
-        if npo == -1:
-            return Final(list(s.seq[:k]), "list")
-        return Final(list(itertools.chain.from_iterable(s.parts[:npo]))[:k], "list")
+        return Final(avail(s)[:k], "list")
 
     def dask_fn(b, s):
         if lazy:
-            return b.take(k, npartitions=npo, compute=False, warn=False)
-        return list(b.take(k, npartitions=npo, warn=False))
+            return b.take(k, npartitions=npo, compute=False, warn=warn)
+        return list(b.take(k, npartitions=npo, warn=warn))
     feats = ["npartitions=-1" if npo == -1 else ("npartitions=1" if npo == 1 else "npartitions>1")] + (["compute=False"] if lazy else [])
-    return Step("take", "take(%d,npartitions=%d%s)" % (k, npo, ",compute=False" if lazy else ""), dask_fn, ref, feats, terminal=True)
+    if warn:
+        feats.append("warn")
+        if len(avail(st)) < k:
+            feats.append("warn&short")
+    return Step("take", "take(%d,npartitions=%d%s%s)" % (k, npo, ",compute=False" if lazy else "", ",warn=True" if warn else ""),
+                dask_fn, ref, feats, terminal=True)
 
 
 def plan_repartition(rng, st):
@@ -860,6 +1066,8 @@ def plan_zip(rng, st):
     if st.kind not in MAPS:
         raise NotApplicable
     r = rng.random()
+    if rng.random() < 0.12:
+        return Step("zip", "zip(b,b)", lambda b, s: db.zip(b, b), lambda s: _elementwise(s, lambda x: (x, x), "X"), ["same-bag-arg"])
     if r < 0.45 or st.parts is None:
         f, _ = rng.choice(MAPS[st.kind])
         return Step("zip", "zip(b,b.map(%s))" % _fn(f), lambda b, s: db.zip(b, b.map(f)),
@@ -939,7 +1147,7 @@ def _plan_stat(name):
             def ref(s):
                 return Final(_ref(lambda: float(fractions.Fraction(sum(s.seq), len(s.seq)))), "float", math.sqrt(_scale(s.seq)))
             return Step("mean", "mean()", lambda b, s: b.mean(), ref, [], terminal=True)
-        ddof = rng.choice((0, 0, 1))
+        ddof = rng.choice((0, 0, 1, 1, 2))
 
         def refv(s):
             def go():
@@ -959,7 +1167,69 @@ def _scale(seq):
     return (sum(x * x for x in seq) / len(seq)) if seq else 0.0
 
 
+def plan_to_dataframe(rng, st):
+    """``b.to_dataframe(meta=|columns=, optimize_graph=)`` against ``pandas.DataFrame(list(seq), columns=...)`` (rows in
+    order, column names, dtypes of the meta; the index is documented as "not particularly meaningful" and ignored)"""
+    if not _HAVE_DD or st.kind not in ("P", "T", "D") or not st.ordered:
+        raise NotApplicable
+    import pandas as pd
+
+    if st.kind == "D":
+        cols = rng.choice((["k", "v", "name"], ["name", "k"], ["v", "k", "name", "absent"]))
+        dtypes = {"k": "int64", "v": "int64", "name": object, "absent": "float64"}
+    else:
+        n = 2 if st.kind == "P" else 3
+        cols = rng.choice((["u", "v", "w"][:n], ["c%d" % i for i in range(n)]))
+        dtypes = dict(zip(cols, (["int64", "int64"] if n == 2 else [object, "int64", "int64"])))
+    how = rng.choice(("columns", "columns", "meta-dict", "meta-list", "meta-float"))
+    og = rng.random() < 0.7
+    kw = {} if og else {"optimize_graph": False}
+    if how == "columns":
+        # meta is inferred from the first element of the FIRST partition: needs one there
+        if st.parts is None or not st.parts or not st.parts[0]:
+            how = "meta-dict"
+        else:
+            kw["columns"] = list(cols)
+    if how == "meta-dict":
+        kw["meta"] = {c: dtypes[c] for c in cols}
+    elif how == "meta-list":
+        kw["meta"] = [(c, dtypes[c]) for c in cols]
+    elif how == "meta-float":     # the meta asks for another dtype than the data has: partitions are cast
+        dtypes = {c: ("float64" if d == "int64" else d) for c, d in dtypes.items()}
+        kw["meta"] = {c: dtypes[c] for c in cols}
+
+    def ref(s):
+        def go():
+            rows = list(s.seq)
+            if how == "columns":
+                meta = pd.DataFrame(rows[:1], columns=list(cols))
+                df = pd.DataFrame(rows, columns=list(cols)).astype(meta.dtypes.to_dict())
+            else:
+                df = pd.DataFrame(rows, columns=list(cols)).astype({c: dtypes[c] for c in cols})
+            return _frame_value(df)
+        return Final(_ref(go), "eq")
+
+    def dask_fn(b, s):
+        return _frame_value(b.to_dataframe(**kw).compute())
+    return Step("to_dataframe", "to_dataframe(%s%s)" % (how + ":" + ",".join(cols), "" if og else ",optimize_graph=False"), dask_fn, ref,
+                [how] + ([] if og else ["optimize_graph=False"]), terminal=True)
+
+
+def _frame_value(df):
+    """what is compared of a frame: column names, dtype kinds, rows in order (missing values as None)"""
+    import pandas as pd
+
+    rows = []
+    for rec in df.astype(object).itertuples(index=False, name=None):
+        rows.append(tuple(None if (v is None or (isinstance(v, float) and v != v) or v is pd.NA) else (v.item() if hasattr(v, "item") else v) for v in rec))
+    return {"columns": [str(c) for c in df.columns], "kinds": [("O" if dt.kind in "OUT" else dt.kind) for dt in df.dtypes], "rows": rows}
+
+
+_HAVE_DD = False
+
+
 PLANNERS = {
+    "unzip": plan_unzip, "persist": plan_persist, "to_delayed": plan_to_delayed, "to_dataframe": plan_to_dataframe,
     "map": plan_map, "starmap": plan_starmap, "filter": plan_filter, "remove": plan_remove, "map_partitions": plan_map_partitions,
     "pluck": plan_pluck, "flatten": plan_flatten, "distinct": plan_distinct, "frequencies": plan_frequencies, "topk": plan_topk,
     "fold": plan_fold, "reduction": plan_reduction, "foldby": plan_foldby, "groupby": plan_groupby, "join": plan_join,
@@ -972,11 +1242,45 @@ OPS = tuple(PLANNERS)
 # heavier weight for the mechanisms the property anchors name
 FORCED = OPS + ("groupby", "groupby", "foldby", "fold", "reduction", "accumulate", "repartition", "take", "distinct", "topk", "frequencies")
 PREFIX_OPS = ("map", "filter", "remove", "map_partitions", "pluck", "flatten", "starmap", "distinct", "frequencies", "foldby",
-              "groupby", "accumulate", "repartition", "zip", "concat", "map", "filter")
+              "groupby", "accumulate", "repartition", "zip", "concat", "map", "filter", "persist", "to_delayed")
 START_KINDS = {  # element kinds on which a forced op can start directly
     "starmap": ("P", "T"), "pluck": ("P", "T", "D"), "flatten": ("S", "P"), "sum": ("I",), "mean": ("I",), "std": ("I",), "var": ("I",),
     "min": COMPARABLE, "max": COMPARABLE, "frequencies": HASHABLE, "accumulate": ("I", "S", "P", "T"),
+    "unzip": ("P", "T"), "to_dataframe": ("P", "T", "D"),
 }
+
+# ---------------------------------------------------------------------------
+# parameter audit: families that the random planners produce too rarely are FORCED in a second stream.  A family is
+# (forced op, feature the last step must have, start kinds); the planner of the op is re-drawn until the step has it.
+AUDIT_FEATS = [
+    ("map", "delayed-arg", None), ("map", "delayed-kwarg", None), ("map", "same-bag-arg", None), ("map", "same-bag-kwarg", None),
+    ("map", "independent-bag-arg", None), ("map", "mixed-args", None),
+    ("starmap", "delayed-kwarg", ("P",)), ("starmap", "item-kwarg", ("P",)),
+    ("map_partitions", "bag-arg", None), ("map_partitions", "bag-kwarg", None), ("map_partitions", "same-bag-arg", None),
+    ("map_partitions", "same-bag-kwarg", None), ("map_partitions", "item-arg", None), ("map_partitions", "delayed-arg", None),
+    ("map_partitions", "delayed-kwarg", None),
+    ("pluck", "key=list", ("P", "T", "D")), ("pluck", "default=falsy", ("D",)), ("unzip", None, ("P", "T")),
+    ("topk", "key=non-callable", ("P", "T", "D")), ("topk", "key=multi-arg", ("P",)),
+    ("fold", "out_type=Bag", None), ("fold", "split_every=False", None), ("reduction", "out_type=Bag", COMPARABLE),
+    ("reduction", "split_every=False", None), ("frequencies", "split_every=False", HASHABLE), ("topk", "split_every=False", None),
+    ("foldby", "split_every=False", None), ("foldby", "combine_initial", None), ("count", "split_every=False", None),
+    ("groupby", "shuffle=config:disk", None), ("groupby", "shuffle=config:tasks", None), ("groupby", "shuffle=config:p2p", None),
+    ("groupby", "key=None/float", ("I",)),
+    ("join", "other=bag1-lazy", None), ("join", "other=delayed-call", None), ("join", "on_other", None),
+    ("take", "warn&short", None), ("take", "warn", None), ("zip", "same-bag-arg", None),
+    ("var", "ddof=2", ("I",)), ("std", "ddof=2", ("I",)), ("var", "ddof=1", ("I",)),
+    ("to_dataframe", "columns", ("P", "T", "D")), ("to_dataframe", "meta-float", ("P", "T", "D")), ("to_dataframe", "optimize_graph=False", ("P", "T", "D")),
+]
+# cross-cutting classes: a pre-step in front of the forced op, a layout class, the threaded scheduler behind a lazily
+# evaluated GIL-yielding step (operations that keep state per task see their tasks interleaved)
+AUDIT_MODS = ("pre:persist", "pre:to_delayed", "pre:repartition", "thr:yield", "thr:yield", "lay:many", "lay:deep", "lay:bigseq", "lay:fs", "lay:range")
+MOD_OPS = ("distinct", "frequencies", "topk", "fold", "reduction", "foldby", "groupby", "accumulate", "take", "count", "sum", "mean", "var",
+           "min", "max", "any", "all", "join", "product", "zip", "concat", "repartition", "map", "filter", "map_partitions", "flatten", "pluck",
+           "starmap", "std", "remove")
+
+
+def _slug(text):
+    return "".join(ch if ch.isalnum() else "_" for ch in text)
 
 
 def cases(tier, seed):
@@ -984,6 +1288,15 @@ def cases(tier, seed):
     n = 9000 if tier == "quick" else 150000
     for i in range(n):
         yield {"op": FORCED[i % len(FORCED)], "cs": rng.randrange(2 ** 31)}
+    # parameter-audit stream (see AUDIT_FEATS / AUDIT_MODS)
+    na = (36 if tier == "quick" else 540)
+    for j in range(na):
+        for op, feat, _ in AUDIT_FEATS:
+            yield {"op": op, "want": feat, "cs": rng.randrange(2 ** 31)}
+    nm = (150 if tier == "quick" else 2250)
+    for j in range(nm):
+        for k, mod in enumerate(AUDIT_MODS):
+            yield {"op": MOD_OPS[(j * len(AUDIT_MODS) + k) % len(MOD_OPS)], "mod": mod, "cs": rng.randrange(2 ** 31)}
     # repartition(npartitions=) over a grid of (current, requested) partition counts: the new boundaries come from
     # floating-point arithmetic on the two counts, so many pairs have to be seen, not a handful of small ones
     top = 34 if tier == "quick" else 130
@@ -1005,9 +1318,23 @@ def shard_setup(tier, seed):
 
     global _TMPFS
     warnings.simplefilter("ignore")
+    _ensure_dd()
     if os.path.isdir("/dev/shm") and os.access("/dev/shm", os.W_OK):
         _TMPFS = tempfile.mkdtemp(prefix="vf-c48-", dir="/dev/shm")
         atexit.register(shutil.rmtree, _TMPFS, True)
+
+
+def _ensure_dd():
+    """dask.dataframe (for Bag.to_dataframe) through the harness' pyarrow import stub; without it the family is skipped"""
+    global _HAVE_DD
+    if not _HAVE_DD:
+        try:
+            from vf.gen import frames
+
+            frames.setup()
+            _HAVE_DD = True
+        except Exception:  # noqa: BLE001
+            _HAVE_DD = False
 
 
 def shard_finish():
@@ -1097,7 +1424,7 @@ def _run(steps, states, bag, sched):
     import dask
 
     try:
-        with dask.config.set(scheduler=sched):
+        with dask.config.set(_sched_config(sched)):
             obj = bag
             for step, st in zip(steps, states):
                 obj = step.dask(obj, st)
@@ -1110,6 +1437,12 @@ def _run(steps, states, bag, sched):
         raise
     except Exception as e:  # noqa: BLE001
         return "exc", e
+
+
+def _sched_config(sched):
+    if sched == "threads4":
+        return {"scheduler": "threads", "num_workers": 4}
+    return {"scheduler": sched}
 
 
 def _symptom(steps, states, bag, fin, sched):
@@ -1196,7 +1529,8 @@ def _shrink(keeps, parts, budget=160):
 
 ELEMENTWISE = ("map", "starmap", "filter", "remove", "pluck", "flatten", "map_partitions")
 # operation variants that read their input bag from two tasks (zip(b, b.map(f)), b.map(f, b.count()), b.product(b) ...)
-TWICE_FEATS = frozenset(("bag-arg", "bag-kwarg", "item-arg", "item-kwarg", "self", "derived", "three", "other-npartitions>1"))
+TWICE_FEATS = frozenset(("bag-arg", "bag-kwarg", "item-arg", "item-kwarg", "self", "derived", "three", "other-npartitions>1",
+                         "same-bag-arg", "same-bag-kwarg"))
 
 
 def _pipe_names(steps):
@@ -1284,7 +1618,25 @@ def _explain(steps, st_in, parts, sched, how="delayed"):
 def _diagnose(ctx, steps, states, bag, parts, layout, sym, sched, detail):
     """isolate the failing step, shrink the witness, label it"""
     hows = ["delayed"] if layout["style"] == "delayed" else ["delayed", "literal"]
-    # 1. does ONE step alone fail on its own reference input?
+    # 0. a failure of a threaded run that the synchronous scheduler does not show is about interleaved tasks: no layout
+    #    predicate can be established by shrinking (timing), the label names the operation
+    if sched != "sync":
+        try:
+            out = steps[-1].ref(states[-1])
+            fin0 = out if isinstance(out, Final) else _final_of(out)
+            again, _, _ = _symptom(steps, states, bag, fin0, sched)
+            sym_sync, tag_sync, _ = _symptom(steps, states, bag, fin0, "sync")
+        except G_TIMEOUT:
+            raise
+        except Exception:  # noqa: BLE001
+            again, sym_sync, tag_sync = None, "?", "exc"
+        if tag_sync == "ok" and sym_sync is None:
+            lazy = any("gil-yield" in s_.feats for s_ in steps[:-1])
+            detail.update(diagnosis="agrees with the reference on the synchronous scheduler", reproduced_on_threads=again is not None)
+            ctx.violation("%s:only-on-threads%s:%s" % (steps[-1].name, "&gil-yielding-lazy-input" if lazy else "", "values" if sym in ("values", "order") else sym),
+                          "pipeline %s on the threaded scheduler: expected %s got %s (correct on the synchronous scheduler)"
+                          % (detail["pipeline"], detail["expected"][:300], detail["got"][:300]), **detail)
+            return
     for i, step in enumerate(steps):
         st_in = states[i]
         iparts = st_in.parts
@@ -1306,6 +1658,8 @@ def _diagnose(ctx, steps, states, bag, parts, layout, sym, sched, detail):
         last = steps[-1]
         if last.name == "product" and "self" in last.feats:
             how_read = "product(self)"
+        elif "same-bag-arg" in last.feats or "same-bag-kwarg" in last.feats:
+            how_read = "same-partition-twice-in-one-task"      # zip(b, b), b.map(f, b), b.map_partitions(f, q=b)
         elif "item-arg" in last.feats or "item-kwarg" in last.feats:
             how_read = "item-argument"
         elif TWICE_FEATS.intersection(last.feats):
@@ -1353,21 +1707,38 @@ def _diagnose(ctx, steps, states, bag, parts, layout, sym, sched, detail):
     ctx.violation(_label(cur, mini, sym, how), "%s on partitions %r: %s" % (desc, mini, _explain(cur, st0, mini, sched, how)), **detail)
 
 
-def _plan_pipeline(rng, forced, st0):
-    """typed random prefix + the forced last operation"""
+def _plan_wanted(rng, name, st, want):
+    """the planner of ``name`` re-drawn until the step has the feature ``want``"""
+    if want is None:
+        return PLANNERS[name](rng, st)
+    for _ in range(120):
+        try:
+            step = PLANNERS[name](rng, st)
+        except RefReject:
+            continue
+        if want in step.features(st.nparts):
+            return step
+    raise NotApplicable
+
+
+def _plan_pipeline(rng, forced, st0, want=None, pre=None):
+    """typed random prefix + the forced last operation.  ``pre``: names (name, wanted feature) of the steps that must
+    stand directly in front of the forced operation (behind a lazily evaluated elementwise step)."""
     for attempt in range(40):
         r = rng.random()
         nprefix = 0 if r < 0.62 else (1 if r < 0.87 else 2)
         if attempt > 25:
             nprefix = min(nprefix, 1)
+        plan = [(rng.choice(PREFIX_OPS), None) for _ in range(nprefix)]
+        if pre:
+            plan = [(rng.choice(("map", "filter", "map", "remove", "pluck", "flatten")), None)] * (1 if rng.random() < 0.8 else 0) + list(pre)
         steps, states = [], [st0]
         try:
-            for _ in range(nprefix):
-                name = rng.choice(PREFIX_OPS)
+            for name, pwant in plan:
                 if states[-1].kind == "G":
                     step = plan_group_follow(rng, states[-1])
                 else:
-                    step = PLANNERS[name](rng, states[-1])
+                    step = _plan_wanted(rng, name, states[-1], pwant)
                 if step.terminal or "generator-result" in step.feats:
                     # a partition that is a one-shot generator cannot feed two consumers (zip(b, b.map(f)), Item
                     # arguments, repartition(partition_size) ...): generator results only as the LAST step
@@ -1379,7 +1750,7 @@ def _plan_pipeline(rng, forced, st0):
                 states.append(out)
             if states[-1].kind == "G" and forced not in ("count",):
                 raise NotApplicable
-            step = PLANNERS[forced](rng, states[-1])
+            step = _plan_wanted(rng, forced, states[-1], want)
             steps.append(step)
             return steps, states
         except NotApplicable:
@@ -1443,25 +1814,69 @@ def run_case(case, ctx):
     forced = case["op"]
     if forced == "repartition-grid":
         return _run_repartition_grid(case, ctx)
+    _ensure_dd()
     rng = random.Random(case["cs"])
-    for attempt in range(3):
-        kind = _start_kind(rng, forced, attempt)
-        L = G.gen_seq(rng, kind, 40)
-        layout = G.gen_layout(rng, len(L))
-        bag, parts = G.build_bag(L, layout)
+    want, mod = case.get("want"), case.get("mod")
+    fam = None
+    if want is not None or (mod is None and "want" in case):
+        fam = "%s:%s" % (forced, want or "any")
+    elif mod is not None:
+        fam = mod
+    pre = {"pre:persist": [("persist", None)], "pre:to_delayed": [("to_delayed", None)], "pre:repartition": [("repartition", None)],
+           "thr:yield": [("map", "gil-yield")]}.get(mod)
+    kinds_wanted = None
+    if "want" in case:
+        kinds_wanted = [k for o, f, k in AUDIT_FEATS if o == forced and f == want][0]
+    for attempt in range(4 if fam else 3):
+        if kinds_wanted:
+            kind = rng.choice(kinds_wanted)
+        elif mod in ("lay:range",):
+            kind = "I"
+        else:
+            kind = _start_kind(rng, forced, attempt)
+        if mod == "lay:bigseq":
+            L = G.gen_seq_big(rng, kind, 101, 260)
+            layout = rng.choice(({"style": "np", "n": rng.choice((2, 3, 7, 12, 30))}, {"style": "fs"}, {"style": "ps", "s": rng.choice((13, 50, 100))}))
+        elif mod == "lay:range":
+            L = list(range(rng.choice((0, 1, 2, 3, 5, 7, 10, 12, 24, 31, 40))))
+            layout = {"style": "range", "n": rng.choice((1, 2, 3, 4, 5, 7, 12))}
+        else:
+            L = G.gen_seq(rng, kind, 40)
+            if mod == "lay:many":
+                layout = G.gen_layout_many(rng, len(L), 13, 40)
+            elif mod == "lay:deep":
+                layout = G.gen_layout_many(rng, len(L), 65, 72)
+            elif mod == "lay:fs":
+                layout = {"style": "fs"}
+            else:
+                layout = G.gen_layout(rng, len(L))
+        try:
+            bag, parts = G.build_bag(L, layout)
+        except Exception as ex:  # noqa: BLE001 - a constructor that refuses a sequence/partition count
+            ctx.nontrivial = len(L) > 0
+            ctx.sig = ("constructor", layout, len(L))
+            ctx.exception(ex, prefix="%s:%s" % ({"range": "range", "fs": "from_sequence", "np": "from_sequence", "ps": "from_sequence"}.get(layout["style"], "from_delayed"),
+                                                "&".join(_ctor_feats(L, layout)) or "any"))
+            return
         if parts is None:
             parts = G.parts_of(bag)
             if [G.canon(x) for p in parts for x in p] != [G.canon(x) for x in L]:
-                ctx.violation("from_sequence:%s:values" % layout["style"], "partitions %r do not concatenate to %r" % (parts, L))
+                ctx.violation("%s:%s:values" % ("range" if layout["style"] == "range" else "from_sequence", layout["style"]),
+                              "partitions %r do not concatenate to %r" % (parts, L))
                 return
         st0 = St(kind, parts)
-        steps, states = _plan_pipeline(rng, forced, st0)
+        steps, states = _plan_pipeline(rng, forced, st0, want, pre)
         if steps is not None:
             break
     if steps is None:
-        ctx.reject("no typed pipeline ending in %s for kind %s" % (forced, kind))
+        ctx.reject("no typed pipeline ending in %s%s for kind %s" % (forced, "[%s]" % want if want else "", kind))
+        if fam:
+            ctx.count("aud_unplanned")
         return
-    sched = "threads" if rng.random() < 0.12 else "sync"
+    if mod == "thr:yield":
+        sched = "threads4"
+    else:
+        sched = "threads" if rng.random() < 0.12 else "sync"
     # reference of the last step
     try:
         out = steps[-1].ref(states[-1])
@@ -1489,11 +1904,32 @@ def run_case(case, ctx):
         if forced in ("fold", "reduction", "foldby", "accumulate", "groupby", "topk", "frequencies", "distinct") or forced in STATS:
             ctx.count("empty_partition_in_reduction")
     for s, sti in zip(steps, states):
-        for f in s.features(sti.nparts):
-            if f in ("multi-level", "multi-stage", "shuffle=tasks", "shuffle=disk"):
+        fs = s.features(sti.nparts)
+        for f in fs:
+            if f in ("multi-level", "multi-stage", "shuffle=tasks", "shuffle=disk", "three-levels"):
                 ctx.count(s.name + "_" + f.replace("=", "_").replace("-", "_"))
-    if sched == "threads":
+        if "combine_initial" in fs and "multi-level" in fs:
+            ctx.count("foldby_combine_initial_multi_level")
+    if sched in ("threads", "threads4"):
         ctx.count("threads_runs")
+    lastf = steps[-1].features(states[-1].nparts)
+    for f in lastf:
+        if (forced, f) in _AUDIT_KEYS:
+            ctx.count("aud_%s_%s" % (forced, _slug(f)))
+    if forced == "unzip":
+        ctx.count("aud_unzip_any")
+    if len(steps) > 1 and steps[-2].name in ("persist", "to_delayed"):
+        ctx.count("aud_pre_" + steps[-2].name)
+    if len(steps) > 1 and steps[-2].name == "repartition" and mod == "pre:repartition":
+        ctx.count("aud_pre_repartition")
+    if sched == "threads4" and len(steps) > 1 and "gil-yield" in steps[-2].feats:
+        ctx.count("aud_thr_yield")
+        if len(parts) > 1 and sum(1 for p_ in parts if p_) > 1:
+            ctx.count("aud_thr_yield_several_nonempty_partitions")
+    if mod and mod.startswith("lay:"):
+        ctx.count("aud_" + _slug(mod))
+        if mod == "lay:deep" and "three-levels" in lastf:
+            ctx.count("aud_default_split_three_levels")
 
     sym, tag, val = _symptom(steps, states, bag, fin, sched)
     if tag == "unsupported":
@@ -1522,6 +1958,8 @@ def _siblings(ctx, case, forced, steps, states, bag, val):
     compute=False) are not collections: nothing to observe."""
     import dask
 
+    if forced in ("unzip", "to_dataframe"):
+        return      # eager results: no collection to observe
     srng = S.rng_for(case)
     step2 = None
     for _ in range(6):
@@ -1578,3 +2016,13 @@ def _bagkey(seq):
 
 
 STATS = ("count", "sum", "mean", "std", "var", "min", "max", "any", "all")
+_AUDIT_KEYS = frozenset((o, f) for o, f, _ in AUDIT_FEATS if f is not None)
+
+
+def _ctor_feats(L, layout):
+    f = []
+    if layout["style"] in ("range", "np") and len(L) < layout["n"]:
+        f.append("n<npartitions")
+    if not L:
+        f.append("empty-sequence")
+    return f
